@@ -85,16 +85,20 @@ def generate(rng: Rng, n, tier="quick"):
         k += 1
     # … and the same pairs INSIDE the body of a partial called with a block (siblings there share what `@partial-block` denotes)
     inner_ops = ["{{#> inner}}x{{/inner}}", "{{> @partial-block}}", "{{#> inner}}{{> @partial-block}}{{/inner}}", "{{#> slot}}s{{/slot}}", "{{v}}",
-                 "{{#> nosuch}}dflt{{/nosuch}}", "{{#> nosuch}}{{#> inner}}n{{/inner}}{{/nosuch}}", "{{#> inner}}{{#> nosuch}}m{{/nosuch}}{{/inner}}"]
+                 "{{#> nosuch}}dflt{{/nosuch}}", "{{#> nosuch}}{{#> inner}}n{{/inner}}{{/nosuch}}", "{{#> inner}}{{#> nosuch}}m{{/nosuch}}{{/inner}}",
+                 # a block call whose block is EMPTY (no element at all)
+                 "{{#> inner}}{{/inner}}", "{{#> slot}}{{/slot}}"]
     for A in inner_ops:
         for B in inner_ops:
-            ops = [{"op": "reg_string", "reg": 0, "name": nm, "src": sr} for nm, sr in regs]
-            ops += [{"op": "reg_string", "reg": 0, "name": "layAB", "src": A + "|" + B}, {"op": "reg_string", "reg": 0, "name": "layA", "src": A + "|"},
-                    {"op": "reg_string", "reg": 0, "name": "layB", "src": "|" + B}]
-            rend = lambda nm: {"op": "render", "reg": 0, "api": "render_template", "src": "{{#> %s}}Z{{v}}{{/%s}}" % (nm, nm), "data": enc(dd)}
-            c = {"kind": "session", "regs": [{"escape": "none"}], "ops": ops + [rend("layAB"), rend("layA"), rend("layB")], "id": "C08-d%03d" % k}
-            out.append((c, {"mode": "pair", "A": A}))
-            k += 1
+            # … the enclosing partial called with a block that writes something, and with an EMPTY block
+            for blk in ("Z{{v}}", ""):
+                ops = [{"op": "reg_string", "reg": 0, "name": nm, "src": sr} for nm, sr in regs]
+                ops += [{"op": "reg_string", "reg": 0, "name": "layAB", "src": A + "|" + B}, {"op": "reg_string", "reg": 0, "name": "layA", "src": A + "|"},
+                        {"op": "reg_string", "reg": 0, "name": "layB", "src": "|" + B}]
+                rend = lambda nm: {"op": "render", "reg": 0, "api": "render_template", "src": "{{#> %s}}%s{{/%s}}" % (nm, blk, nm), "data": enc(dd)}
+                c = {"kind": "session", "regs": [{"escape": "none"}], "ops": ops + [rend("layAB"), rend("layA"), rend("layB")], "id": "C08-d%03d" % k}
+                out.append((c, {"mode": "pair", "A": A}))
+                k += 1
     # … and pairs composed INSIDE THE BODY OF AN INDENTED PARTIAL (an indentation string is active: the write flags that decide
     # where it is put are part of the state a finished construct must leave alone); operands write no line break
     regs2 = [("nothing", ""), ("emptyif", "{{#if f}}x{{/if}}"), ("slot", "<{{> @partial-block}}>"), ("one", "1")]
